@@ -158,9 +158,12 @@ pub fn run_with(sc: &Scenario, trace: bool, setup: impl FnOnce(&Net)) -> RunResu
         let addrs: Vec<_> = sc.socks.iter().enumerate().map(|(i, c)| addr(c.v6, i)).collect();
         let sh = Arc::new(Shared { logs: Default::default(), conn_meta: Default::default(), harness_tasks: AtomicI64::new(0) });
         for ci in 0..sc.conns.len() {
-            for side in 0..2 {
-                sh.logs.lock().insert((ci, side), (Arc::new(Mutex::new(EndpointLog::default())), false));
-            }
+            let l0: SharedLog = Arc::new(Mutex::new(EndpointLog::default()));
+            let l1: SharedLog = Arc::new(Mutex::new(EndpointLog::default()));
+            l0.lock().peer = Some(l1.clone());
+            l1.lock().peer = Some(l0.clone());
+            sh.logs.lock().insert((ci, 0), (l0, false));
+            sh.logs.lock().insert((ci, 1), (l1, false));
         }
 
         // acceptors: per listening socket, accept as many streams as plans point at it; match
@@ -239,7 +242,9 @@ pub fn run_with(sc: &Scenario, trace: bool, setup: impl FnOnce(&Net)) -> RunResu
         let deadline_us = sc.deadline_ms as u64 * 1000;
         let mut scripts_done = false;
         let mut done_at = None;
-        let step = Duration::from_millis(20);
+        // polling step: 20 ms while things happen, growing to 2 s during long quiet stretches
+        let mut step = Duration::from_millis(20);
+        let mut last_activity = (0usize, 0usize);
         loop {
             let now = (tokio::time::Instant::now() - t0).as_micros() as u64;
             while ev_i < events.len() && (events[ev_i].0 as u64) * 1000 <= now {
@@ -279,6 +284,13 @@ pub fn run_with(sc: &Scenario, trace: bool, setup: impl FnOnce(&Net)) -> RunResu
             if now >= deadline_us {
                 break;
             }
+            let activity = (net.log_len(), sh.logs.lock().values().map(|(l, _)| l.lock().recs.len()).sum::<usize>());
+            if activity != last_activity {
+                last_activity = activity;
+                step = Duration::from_millis(20);
+            } else {
+                step = (step * 2).min(Duration::from_millis(2000));
+            }
             let mut next = step;
             if ev_i < events.len() {
                 let te = (events[ev_i].0 as u64) * 1000;
@@ -303,6 +315,10 @@ pub fn run_with(sc: &Scenario, trace: bool, setup: impl FnOnce(&Net)) -> RunResu
                 let e1 = &logs[&(ci, 1)];
                 conns.push(ConnResult { connect_err: m.0, connected_at_us: m.1, accepted_at_us: m.2, ep: [snap(&e0.0, e0.1), snap(&e1.0, e1.1)] });
             }
+        }
+        // break the reference cycle between the two endpoint logs
+        for (_, (l, _)) in sh.logs.lock().iter() {
+            l.lock().peer = None;
         }
         RunResult {
             log: net.log(),
